@@ -363,8 +363,17 @@ func checkSocksDeadlines(p *Prog, r *Report, scan *ssa.Function) {
 				if e2 := sxSeg(s, lf["timeout"], 0); !strings.HasSuffix(e2, "s.dataTimeout") {
 					detail = "wrapper timeout is " + e2
 				}
-				dialled := lf["conn"] != nil
-				for _, o := range p.Origins(lf["conn"]) {
+				// the wrapper's connection is its field of type net.Conn, named or embedded
+				connField := ""
+				if st, isSt := wrapperT.Underlying().(*types.Struct); isSt {
+					for i := 0; i < st.NumFields(); i++ {
+						if types.TypeString(st.Field(i).Type(), nil) == "net.Conn" {
+							connField = st.Field(i).Name()
+						}
+					}
+				}
+				dialled := connField != "" && lf[connField] != nil
+				for _, o := range p.Origins(lf[connField]) {
 					ex, isEx := o.(*ssa.Extract)
 					if !isEx {
 						dialled = false
